@@ -142,6 +142,7 @@ func (r *propRun) writeEvidence(wall time.Duration) {
 		"unconfirmed_counterexamples":   r.unconfirmed,
 		"known_findings_hit":            r.knownHit,
 		"engine_native_mismatches":      r.mismatches,
+		"gated_replays_not_reproduced":  r.unvalidated,
 		"solver_cross_check":            map[string]any{"queries_replayed": r.crossQueries, "disagreements": r.solverDiffs},
 		"evaluations":                   states,
 		"distinct_nontrivial":           completed,
